@@ -86,7 +86,7 @@ Definition lsteps (recheck : bool) (x : lst) : list (option label * lst) :=
        | PTop => if done_ s then [(None, with_base x (set_pull s PSendErr))]
                  else [(None, mkL (set_pull s PCalling) (Some LChildCall) (cpend x) (phase x))]
        | PCalling =>
-           (if done_ s then [(None, mkL (set_pull s PSendErr) (Some LChildErr) (cpend x) (phase x))] else [])
+           [(None, mkL (set_pull s PSendErr) (Some LChildErr) (cpend x) (phase x))]
            ++ match remaining s with
               | S r => [(None, mkL (mkSt (done_ s) (buf s) (closed s) PSendData r (drain s) (cons s) (received s))
                                    (Some LChildData) (cpend x) (phase x))]
